@@ -97,7 +97,58 @@ def cases(tier, seed):
                                     for ax in range(3):
                                         out.append({"tomo": list(tomo), "rot": rot, "shape": list(shape), "order": order, "scale": scale,
                                                     "corner_safe": cs, "array": kind, "seed": seed, "family": f"sweep{ax}"})
+    # call histories on one loader whose molecules are edited in place between loads (a refinement loop translating /
+    # rotating its molecules with copy=False): every load samples at the molecules' CURRENT poses
+    for kind in ("single", "batch"):
+        for scale in (1.0, 0.5):
+            out.append({"family": "history", "kind": kind, "scale": scale, "depth": 3})
     return out
+
+
+def _run_history(case):
+    from scipy.spatial.transform import Rotation
+
+    from acryo import BatchLoader, Molecules, SubtomogramLoader
+    from vf import history
+
+    scale, kind = case["scale"], case["kind"]
+
+    def make():
+        rng = np.random.default_rng(8)
+        tomo = rng.standard_normal((24, 26, 28)).astype(np.float32)
+        rots = Rotation.from_matrix(np.array([data.rot_matrix(n) for n in ("cube0", "gen0", "cube9", "gen1")]))
+        mole = Molecules(np.array([[10.0, 12.0, 14.0], [12.5, 11.0, 13.0], [11.0, 14.0, 12.0], [13.0, 13.0, 15.0]]) * scale, rots)
+        if kind == "batch":
+            ld = BatchLoader(order=1, scale=scale, output_shape=(5, 5, 5))
+            ld.add_tomogram(tomo, mole, image_id=0)
+            mole = ld.molecules
+        else:
+            ld = SubtomogramLoader(tomo, mole, order=1, scale=scale, output_shape=(5, 5, 5))
+        return {"ld": ld, "mole": mole}
+
+    ops = [("asnumpy", lambda st: np.asarray(st["ld"].asnumpy())), ("load(0)", lambda st: np.asarray(st["ld"].load(0))),
+           ("load([2,1])", lambda st: np.asarray(st["ld"].load([2, 1]))), ("average", lambda st: np.asarray(st["ld"].average()))]
+    v = np.array([0.2, -0.1, 0.3])
+    mutators = [("translate(copy=False)", lambda st: st["mole"].translate(np.array([3.0, -2.0, 4.0]) * scale, copy=False)),
+                ("translate_internal(copy=False)", lambda st: st["mole"].translate_internal(np.array([1.0, 0.5, -1.5]) * scale, copy=False)),
+                ("rotate_by_rotvec(copy=False)", lambda st: st["mole"].rotate_by_rotvec(np.tile(v, (4, 1)), copy=False))]
+    res = history.explore(make, ops, case["depth"], atol=1e-6, rtol=1e-6, mutators=mutators)
+    viol, seen = [], set()
+    for n_ in res["raises_alone"]:
+        viol.append((f"{ID}|history|{kind}|raises-on-a-fresh-loader|{n_.split('(')[0]}", f"{n_} raised {res['raises_alone_msg'][n_]}"))
+    for hist, why in res["failures"]:
+        upd = [h for h in hist[:-1] if "copy=False" in h]
+        sg = f"{ID}|history|{kind}|{hist[-1].split('(')[0]}-after-{(upd[-1] if upd else hist[-2]).split('(')[0]}"
+        if sg not in seen:
+            seen.add(sg)
+            viol.append((sg, f"{kind} loader, scale {scale}: {hist[-1]} after {hist[:-1]} differs from the same call on a fresh loader whose molecules got the same in-place edits: {why}"))
+    for hist, err in res["errors"]:
+        sg = f"{ID}|history|{kind}|raised"
+        if sg not in seen:
+            seen.add(sg)
+            viol.append((sg, f"{hist} raised {err}"))
+    return {"nontrivial": True, "outcome": f"history|{kind}|{'viol' if viol else 'ok'}", "viol": viol,
+            "metrics": {"history_sequences": res["sequences"], "history_calls": res["calls"]}}
 
 
 def _axis_values(n):
@@ -158,6 +209,8 @@ def _trilinear(tomo, X):
 
 
 def run_case(case):
+    if case.get("family") == "history":
+        return _run_history(case)
     import dask
     from scipy import ndimage as ndi
     from scipy.spatial.transform import Rotation
